@@ -262,6 +262,13 @@ class C20(Prop):
                     container = "dict"
             case = {"kind": "rand", "boundary": boundary, "rand": rand, "container": container,
                     "via": "reb" if rng.random() < 0.33 else "encode", "fields": fields}
+            rfs = [f for f in fields if f["k"] == "rf" and f.get("headers")]
+            if len([f for f in fields if f["k"] == "rf"]) >= 2 and rfs and rng.random() < 0.5:
+                # one headers dict object handed to several RequestFields
+                for f in fields:
+                    if f["k"] == "rf":
+                        f["headers"] = [list(x) for x in rfs[0]["headers"]]
+                case["share"] = True
             if case["via"] == "reb":
                 case["hdrs"] = rng.choice([None, None, [["X-A", "1"]], [["content-type", "text/x-mine"]], [["Content-Type", "multipart/form-data; boundary=mine"]]])
             yield case
@@ -302,8 +309,10 @@ class C20(Prop):
             yield c
 
     # ------------------------------------------------------------ building inputs
-    def build_field(self, f):
-        """-> (python object for `fields`, protocol token, expectation dict for the oracle)"""
+    def build_field(self, f, shared=None):
+        """-> (python object for `fields`, protocol token, expectation dict for the oracle).  `shared`: a dict
+        cache — RequestFields whose `headers=` have equal content are then given THE SAME dict object (a caller
+        re-using one headers dict for several fields): each part must still carry its own field's headers"""
         from urllib3.fields import RequestField
         k = f["k"]
         name = f["name"]
@@ -329,7 +338,11 @@ class C20(Prop):
         else:
             fn = f["fn"]
             hs = [(a, b) for a, b in f["headers"]]
-            obj = RequestField(pname, data_obj(d), filename=as_param(fn, f.get("fb")), headers=dict(hs) if hs else None)
+            if shared is not None and hs:
+                hobj = shared.setdefault(tuple(map(tuple, hs)), dict(hs))
+            else:
+                hobj = dict(hs) if hs else None
+            obj = RequestField(pname, data_obj(d), filename=as_param(fn, f.get("fb")), headers=hobj)
             mm = f["mm"]
             if mm is not None:
                 obj.make_multipart(content_disposition=mm[0], content_type=mm[1], content_location=mm[2])
@@ -415,8 +428,11 @@ class C20(Prop):
         rand = bytes.fromhex(case["rand"])
         bused = boundary if boundary is not None else rand.hex()
         objs, toks, exps = [], [], []
+        shared = {} if case.get("share") else None
+        if shared is not None:
+            res.bump("shared-headers-dict")
         for f in case["fields"]:
-            o, t, e = self.build_field(f)
+            o, t, e = self.build_field(f, shared)
             objs.append(o); toks.append(t); exps.append(e)
             res.bump("field:" + f["k"] + ("/obj" if f.get("obj") else ""))
         fields = dict(objs) if case["container"] == "dict" else objs
